@@ -281,7 +281,7 @@ Qed.
 Lemma crash_vis : forall s ops k v, Forall tmpw ops -> sbr ops [] = true ->
   exists k', vis_eq (crash_state s ops k v) (apply_ops s (firstn k' ops)).
 Proof.
-  intros s ops k v F S. unfold crash_state.
+  intros s ops k v F HS. unfold crash_state.
   destruct (v =? 1).
   - destruct (nth_error ops k) as [o|] eqn:E.
     + destruct o; simpl tear_op;
@@ -305,9 +305,10 @@ Proof. intros. simpl. rewrite N.eqb_refl. reflexivity. Qed.
 Lemma groups_ok : forall todo, Forall tmpw (flat_map group todo ++ done_write)
                               /\ sbr (flat_map group todo ++ done_write) [] = true.
 Proof.
-  induction todo as [|f r [A B]]; simpl.
-  - split; [apply group_tmpw, tmp_infotmp|]. unfold done_write. simpl. now rewrite N.eqb_refl.
-  - rewrite <- app_assoc. split.
+  induction todo as [|f r [A B]].
+  - split; [apply group_tmpw, tmp_infotmp|]. reflexivity.
+  - change (flat_map group (f :: r)) with (group f ++ flat_map group r).
+    rewrite <- app_assoc. split.
     + apply Forall_app. split; [apply group_tmpw, tmp_qprtmp|assumption].
     + unfold group at 1. rewrite sbr_group. exact B.
 Qed.
@@ -352,15 +353,16 @@ Proof.
 Qed.
 
 (* the first run (StartSearch on an empty directory, then processRequest) *)
+Lemma remaining_nil : forall l, remaining [] l = l.
+Proof. induction l as [|x r IH]; [reflexivity|]. unfold remaining in *. simpl. now rewrite IH. Qed.
+
 Lemma start_ops_shape : forall fs,
   start_ops fs = OMkdir :: atomic_write FInfo FInfoTmp (CInfo (nullb fs))
                  ++ (if nullb fs then [] else flat_map group fs ++ done_write).
 Proof.
-  intro fs. unfold start_ops. destruct fs as [|f r]; [reflexivity|]. simpl nullb. cbv iota.
-  rewrite dosearch_groups. unfold remaining. simpl filter.
-  assert (R : forall l, filter (fun g => negb (processed [] g)) l = l).
-  { induction l; simpl; [reflexivity|]. now rewrite IHl. }
-  change (negb (processed [] f)) with true. cbv iota. now rewrite R.
+  intro fs. unfold start_ops. destruct fs as [|f r]; [reflexivity|].
+  change (nullb (f :: r)) with false. cbv iota.
+  now rewrite dosearch_groups, remaining_nil.
 Qed.
 
 Lemma start_ok : forall fs, Forall tmpw (start_ops fs) /\ sbr (start_ops fs) [] = true.
